@@ -382,6 +382,10 @@ def run(tier='quick', seed=0):
                 except TypeCheckException:
                     viol('result', sk0, 'result does not type-check', family='schematic', result=repr(res))
                 for (p0, s_), (p1, r_) in zip(positions(sk0), positions(res)):
+                    if (r_.is_var() or r_.is_svar() or r_.is_const()) and has_internal(r_.T) or \
+                            r_.is_abs() and has_internal(r_.var_T):
+                        viol('result', sk0, 'internal / missing type left in the result', family='schematic',
+                             result=repr(res))
                     if r_.is_svar() and s_.T is None:
                         if r_.name in seen_sv and seen_sv[r_.name] != r_.T:
                             viol('result', sk0, 'schematic variable %s at two types' % r_.name, family='schematic',
@@ -448,6 +452,17 @@ def run(tier='quick', seed=0):
         lambda: conj([eq(SVar('c', None), Const('zero', NAT)), SVar('c', None)]),
         lambda: conj([eq(Comb(SVar('f', None), Var('x', None)), Var('x', None)), Comb(SVar('f', None), Var('p', None))]),
         lambda: Comb(SVar('c', None), SVar('c', None)),
+    ]
+    # under-determined skeletons whose open type sits only in the types of schematic (or free) variables: a
+    # returned term must not carry an internal type variable anywhere (check_result looks at every position)
+    clash += [
+        lambda: Comb(SVar('f', None), SVar('y', None)),
+        lambda: eq(Comb(SVar('f', None), SVar('y', None)), Const('zero', NAT)),
+        lambda: eq(Comb(SVar('f', None), Comb(SVar('g', None), SVar('y', None))), Const('zero', NAT)),
+        lambda: conj([eq(Comb(SVar('f', None), SVar('y', None)), Const('zero', NAT)), Var('p', None)]),
+        lambda: eq(Comb(SVar('f', None), Var('y', None)), Const('zero', NAT)),
+        lambda: eq(Comb(Var('f', None), SVar('y', None)), Const('zero', NAT)),
+        lambda: Abs('u', NAT, eq(Comb(Comb(SVar('f', None), SVar('y', None)), Bound(0)), Const('zero', NAT))),
     ]
     for mk in clash:
         for ctx_vars in ({}, {'x': NAT}):
